@@ -358,10 +358,20 @@ class World(object):
         return dumps(self)
 
     @classmethod
-    def restore(cls, snap, cfg):
+    def needs_replay(cls):
+        return bool(H.opaque_caches())
+
+    @classmethod
+    def reset_process_state(cls):
+        H.clear_opaque_caches()
+
+    @classmethod
+    def restore(cls, snap, cfg, keep_caches=False):
         w = loads(snap)
         w.cfg = cfg
         w.install()
+        if not keep_caches:
+            H.clear_opaque_caches()      # what cannot be copied starts empty (no-op on the pinned tree)
         return w
 
     # ------------------------------------------------------------------------------ keys
@@ -379,6 +389,10 @@ class World(object):
         h.update(plugin_key_text(self.plugin).encode())
         h.update(repr(self.model_key()).encode())
         h.update(self.pkg_key_text().encode())
+        oc = H.opaque_caches()
+        if oc:
+            # contents of lru_cache wrappers cannot be read: their counters refine the key (approximate de-duplication)
+            h.update(repr([(k, tuple(w.cache_info())) for k, w in oc]).encode())
         return h.digest()
 
     def pkg_key_text(self):
@@ -624,6 +638,12 @@ class World(object):
                 cur = tuple((e["gcode"], e["mode"]) for e in self.sv.ext)
                 if cur == tuple(ev[1]) or self.episode:
                     continue       # the list is not changed while an episode is open (outside C06's quantifier)
+            if k == "SETSCRIPT":
+                if (self.sv.enter, self.sv.exit) == (ev[1], ev[2]) or self.episode:
+                    continue
+            if k == "SETAT":
+                if self.sv.at == self.cfg["at_tables"][ev[1]] or self.episode:
+                    continue
             guard = self.cfg.get("guard")
             if guard is not None and not guard(self, ev):
                 continue
@@ -677,6 +697,16 @@ class World(object):
         elif k == "SETEXT":
             # ev[1]: tuple of (gcode, mode) pairs replacing the configured list of extended codes
             self.sv.ext = [dict(gcode=g, mode=m, description="") for g, m in ev[1]]
+            H.push_settings(self.plugin, self.sv)
+            self.call(self.plugin.on_event, H.Events.SETTINGS_UPDATED, {})
+        elif k == "SETSCRIPT":
+            # enter / exit script replaced (or removed: None, "", comment only) through the settings
+            self.sv.enter, self.sv.exit = ev[1], ev[2]
+            H.push_settings(self.plugin, self.sv)
+            self.call(self.plugin.on_event, H.Events.SETTINGS_UPDATED, {})
+        elif k == "SETAT":
+            # the table of @-command actions is replaced through the settings (cfg["at_tables"][name])
+            self.sv.at = [dict(a) for a in self.cfg["at_tables"][ev[1]]]
             H.push_settings(self.plugin, self.sv)
             self.call(self.plugin.on_event, H.Events.SETTINGS_UPDATED, {})
         elif k == "API":
@@ -1022,7 +1052,7 @@ class World(object):
         g, sc = H.gcode_and_subcode_for_cmd(cmd)
         kinds = self.cfg.get("probe_kinds", ("believed", "true"))
         for kind in kinds:
-            c = World.restore(self.snapshot(), self.cfg)
+            c = World.restore(self.snapshot(), self.cfg, keep_caches=True)
             H.set_user(False)
             cx, cy = (tx, ty) if kind == "believed" else (bx, by)
             data = dict(type="CircularRegion", cx=cx, cy=cy, r=0.45, id="probe")
@@ -1047,7 +1077,7 @@ class World(object):
 
     def _c10_check(self, st):
         snap = self.snapshot()
-        used = World.restore(snap, self.cfg)
+        used = World.restore(snap, self.cfg, keep_caches=True)
         payload = self.cfg.get("c10_payload")
         used._event("PRINT_STARTED", Step(None), payload=payload)
         used.pkg = H.capture_pkg_state()
@@ -1097,7 +1127,7 @@ class World(object):
         n = 0
         for d in range(1, depth + 1):
             for prog in itertools.product(self.C10_PROBES, repeat=d):
-                up = World.restore(usnap, self.cfg).plugin
+                up = World.restore(usnap, self.cfg, keep_caches=True).plugin
                 fp = H.PKG.ExcludeRegionPlugin.__new__(H.PKG.ExcludeRegionPlugin)
                 fp.__dict__.update(loads(fsnap))
                 fp._settings = _shared_settings()
